@@ -754,6 +754,13 @@ pub fn observe<E: EndianParse, S: Sink>(data: &[u8], s: &mut S, opts: &Opts) -> 
         s.u(e.e_shstrndx as u64);
         s.done(true);
     }
+    observe_open(&f, data, s, opts);
+    true
+}
+
+/// Everything after opening, on an already opened file (so that several rounds can share one object).
+pub fn observe_open<E: EndianParse, S: Sink>(f: &ElfBytes<'_, E>, data: &[u8], s: &mut S, opts: &Opts) {
+    let flen = data.len();
 
     // section header table
     s.call(Key::new(Q_SHDRS, 0));
@@ -957,5 +964,4 @@ pub fn observe<E: EndianParse, S: Sink>(data: &[u8], s: &mut S, opts: &Opts) -> 
             }
         }
     }
-    true
 }
